@@ -17,7 +17,7 @@ const (
 	maxLocks  = 16
 	maxChans  = 64
 	maxVars   = 16
-	maxSwitch = 1 << 14
+	maxSwitch = 1 << 16
 	maxOps    = 1 << 15
 	maxSites  = 128
 )
@@ -318,6 +318,12 @@ func blockAndSwitch(me int) {
 //go:norace
 func forcedTarget(n int) int {
 	if cfg.Explicit == nil {
+		if nswitch >= maxSwitch {
+			// the recording is full: from here on the schedule follows the rule a replay
+			// applies when its list has run out (first runnable task), so that the
+			// truncated recording still determines the whole run
+			return nthRunnable(0)
+		}
 		return nthRunnable(int(next() % uint64(n)))
 	}
 	if t, ok := explicitTarget(); ok && tasks[t].state == stRunnable {
@@ -387,8 +393,8 @@ func yieldAt(site string, perK uint32) {
 		}
 		return
 	}
-	if perK == 0 || uint32(next()%1024) >= perK {
-		return
+	if perK == 0 || nswitch >= maxSwitch || uint32(next()%1024) >= perK {
+		return // (no voluntary switches once the recording is full, see forcedTarget)
 	}
 	n := runnableCount()
 	if n == 0 {
